@@ -69,12 +69,13 @@ theorem new_sound (oracle : Oracle) (e : Enforcer) : CacheSound oracle { inner :
 
 /-- a management call: sound afterwards provided the oracle does not change when the call
 reports no change -/
-theorem mgmt_sound (oracle : Oracle) (c : Cached) (f : Enforcer → Enforcer × Res) (hs : CacheSound oracle c)
-    (hstable : resChanged (f c.inner).2 = false → ∀ k, oracle (f c.inner).1 k = oracle c.inner k) :
-    CacheSound oracle (c.mgmt f resChanged).1 := by
+theorem mgmt_sound (oracle : Oracle) (c : Cached) (f : Enforcer → Enforcer × Res)
+    (changed : Enforcer → Enforcer × Res → Bool) (hs : CacheSound oracle c)
+    (hstable : changed c.inner (f c.inner) = false → ∀ k, oracle (f c.inner).1 k = oracle c.inner k) :
+    CacheSound oracle (c.mgmt f changed).1 := by
   unfold Cached.mgmt
   simp only
-  cases hc : resChanged (f c.inner).2 with
+  cases hc : changed c.inner (f c.inner) with
   | true => intro k v hm; simp at hm
   | false =>
     simp only [Bool.false_eq_true, if_false]
@@ -165,14 +166,20 @@ reports none -/
 theorem mgmt_add_sound (oracle : Oracle) (horacle : ∀ e e', C10.sameCore e e' → ∀ k, oracle e' k = oracle e k)
     (c : Cached) (hs : CacheSound oracle c) (sec pt : String) (rule : Rule) (hsave : c.inner.autoSave = false)
     (hu : KeysUnique c.inner.store) (hres : ∃ b, (c.inner.addPolicy sec pt rule).2 = .bool b) :
-    CacheSound oracle (c.mgmt (fun e => e.addPolicy sec pt rule) resChanged).1 := by
-  apply mgmt_sound oracle c _ hs
+    CacheSound oracle (c.mgmt (fun e => e.addPolicy sec pt rule) storeOrResChanged).1 := by
+  apply mgmt_sound oracle c _ _ hs
   intro hc k
   apply horacle
   apply nochange_add_sameCore c.inner sec pt rule hsave hu
   obtain ⟨b, hb⟩ := hres
-  simp only [hb, resChanged] at hc
-  rw [hb, hc]
+  simp only [storeOrResChanged, hb, resChanged, Bool.or_eq_false_iff] at hc
+  rw [hb, hc.1]
+
+/-- a call that fails *after* the store changed (its link update fails) still clears the cache: whatever the
+result, a changed store empties the cache -/
+theorem mgmt_clears_when_store_changed (c : Cached) (f : Enforcer → Enforcer × Res)
+    (h : (f c.inner).1.store ≠ c.inner.store) : (c.mgmt f storeOrResChanged).1.cache = [] := by
+  simp [Cached.mgmt, storeOrResChanged, h]
 
 /-- the plain-request oracle is such an oracle (C10) -/
 theorem enforce_oracle_core (call : String → List String → Option Atom) (tbl : String → Option Expr) :
